@@ -952,7 +952,9 @@ class Interp:
                 return IterV(z3.Length(s), lambda k: s[k], 'list', seq=s)
             if st.branch(cls == V.DICT_CID):
                 s = st.dkeys(ref)
-                return IterV(z3.Length(s), lambda k: s[k], 'dict')
+                it_ = IterV(z3.Length(s), lambda k: s[k], 'dict')
+                it_.dict_ref = ref
+                return it_
             raise Unsupported('iteration over an instance')
         if st.branch(Val.is_s(v)):
             s = Val.sv(v)
